@@ -61,7 +61,9 @@ QUICK_N = 300
 THOROUGH_N = 3000
 SHARD = 60
 DRIVER_TIMEOUT = 600
-RULE = ("6 retire scripts per run (Add; a caller-side Flush whose execute is held; ticks over an idle period until the "
+RULE = ("BulkInserter rows may repeat byte for byte (5 rows incl. 2 repeats); 4 long-execute scripts per run (5 ms interval, "
+        "the held execute goes on 60-90 ms of real and virtual time after Wait was called) and 4 Flush-Add-Flush scripts "
+        "(configured and default Bulk / Chunk executors, no clock advance between the Flushes); 6 retire scripts per run (Add; a caller-side Flush whose execute is held; ticks over an idle period until the "
         "background flusher quits while that execute still runs; Wait from a third goroutine; later Adds restart a flusher); "
         "stat.Metrics scripts vary (stat log switch on / off) x (logx stat switch on / off, own driver process) x (report "
         "writer installed before the adds / after the first period's adds but before its flush / after its flush); "
@@ -257,13 +259,20 @@ def _sqlx_case(rng, directed=None):
         r = after + e2
 
     if directed == 0:
+        # 5 rows of which 2 repeat earlier ones byte for byte: 5 value tuples
+        ops.append({"op": "insert", "n": 5, "dup": 2}); r += 5
         ins(rng.randint(1, 9)); overlap(0, 0, rng.randint(1, 30)); ins(3)
+        ops.append({"op": "insert", "n": rng.randint(4, 9), "dup": rng.randint(1, 2)}); r += ops[-1]["n"]
     elif directed == 1:
         overlap(rng.randint(1, 40), rng.randint(1, 40), rng.randint(50, 300)); ops.append({"op": "tick"}); ops.append({"op": "tick"})
     else:
         for _ in range(rng.randint(2, 6)):
             x = rng.random()
-            if x < 0.4:
+            if x < 0.1:
+                n = rng.randint(2, 12)
+                ops.append({"op": "insert", "n": n, "dup": rng.randint(1, n // 2)})
+                r = (r + n) % M
+            elif x < 0.4:
                 ins(rng.choice([1, 2, 5, 17, 30, 999, 1000, 1001, 1003, 1990, 2000, 2004]))
             elif x < 0.6:
                 ops.append({"op": "tick"})
@@ -404,6 +413,50 @@ def _retire_case(rng):
     return {"chunk": chunk, "max": mx, "ops": ops}
 
 
+def _longexec_case(rng):
+    """5 ms flush interval; the execute of a Flush- / tick-flushed batch goes on for more than idleRound (10)
+    intervals of real and virtual time after Wait was called: Wait returns only after it finished (no timeout)"""
+    chunk = rng.random() < 0.6
+    mx = rng.choice([10, 20]) if chunk else rng.choice([3, 4])
+    ids = _Ids()
+
+    def small():
+        o = {"op": "add", "id": ids.next()}
+        if chunk:
+            o["size"] = rng.randint(0, 3)
+        return o
+
+    ops = [small() for _ in range(rng.randint(1, 2))]
+    ops.append({"op": "holdexec", "via": rng.choice(["flush", "tick"]), "waiter": True, "during": [],
+                "sleep_ms": rng.choice([60, 75, 90])})
+    # and: Flush, Add, Flush within one interval -- the second Flush executes what is pending
+    ops += [small(), {"op": "flush"}, small(), {"op": "flush"}, small(), small(), {"op": "flush"}, {"op": "wait"}]
+    return {"chunk": chunk, "max": mx, "interval_ms": 5, "ops": ops}
+
+
+def _flushflush_cases(rng):
+    """explicit Flush twice within one flush interval with Adds in between, on configured and default executors"""
+    out = []
+    for chunk, defaults in ((False, False), (True, False), (False, True), (True, True)):
+        ids = _Ids()
+        ops = []
+        for _ in range(rng.randint(2, 4)):
+            for _ in range(rng.randint(1, 2)):
+                o = {"op": "add", "id": ids.next()}
+                if chunk:
+                    o["size"] = rng.randint(0, 2)
+                ops.append(o)
+            ops.append({"op": "flush"})
+        ops.append({"op": "wait"})
+        case = {"chunk": chunk, "max": (1048576 if chunk else 1000) if defaults else (10 if chunk else 4), "ops": ops}
+        if defaults:
+            case["defaults"] = True
+        elif rng.random() < 0.5:
+            case["interval_ms"] = rng.choice([5, 250])
+        out.append(case)
+    return out
+
+
 def _before(rng, first=None):
     """executors created (with explicit options) before the observed one"""
     out = [first] if first else []
@@ -471,7 +524,7 @@ def _users(rng, tier):
 
 
 def generate(rng, tier, n):
-    cases = _directed(rng) + _indep_cases(rng, tier) + [_retire_case(rng) for _ in range(6 if tier != "thorough" else 24)] + _users(rng, tier) + [_hold_case(rng) for _ in range(HOLD_N * (4 if tier == "thorough" else 1))]
+    cases = _directed(rng) + _indep_cases(rng, tier) + [_retire_case(rng) for _ in range(6 if tier != "thorough" else 24)] + [_longexec_case(rng) for _ in range(4 if tier != "thorough" else 12)] + _flushflush_cases(rng) + _users(rng, tier) + [_hold_case(rng) for _ in range(HOLD_N * (4 if tier == "thorough" else 1))]
     if tier == "thorough":
         cases += _exhaustive()
     while len(cases) < n:
@@ -573,7 +626,23 @@ def _encode_pe_big(case, obs):
         cZ(case["max"]), cbool(bad), cnat(obs["pending"]), big) + _ivl(case, obs)
 
 
+def _rows_to_calls(obs):
+    """byte-identical rows cannot be told apart in a statement: the k-th occurrence of a row is attributed to the
+    k-th Insert call of that row (canonicalisation); an occurrence no call accounts for becomes id 0 (flagged)"""
+    import collections
+    calls = collections.defaultdict(collections.deque)
+    for a in sorted(obs["adds"], key=lambda a: a["id"]):
+        calls[a.get("key", a["id"])].append(a["id"])
+    batches = []
+    for b in sorted(obs["batches"], key=lambda b: b["start"]):
+        ids = [(calls[k].popleft() if calls[k] else 0) for k in (b["ids"] or [])]
+        batches.append(dict(b, ids=ids))
+    order = {b["start"]: nb for b, nb in zip(sorted(obs["batches"], key=lambda b: b["start"]), batches)}
+    return dict(obs, batches=[order[b["start"]] for b in obs["batches"]])
+
+
 def _encode_sqlx(case, obs):
+    obs = _rows_to_calls(obs)
     ops, nxt = [], 1
     for o in case["ops"]:
         if o["op"] == "insert":
@@ -670,6 +739,8 @@ def encode(case, obs):
                     ops.append("STick" if h["op"] == "tick" else "SAdvance %s" % cZ(h["n"] * SECOND))
                 if o.get("waiter"):
                     ops.append("SWait")
+                if o.get("sleep_ms"):
+                    ops.append("SAdvance %s" % cZ(o["sleep_ms"] * 10 ** 6))
             elif k == "add":
                 ops.append("SAdd %s" % cnat(o["id"]))
             elif k == "racetick":
